@@ -44,6 +44,8 @@ import ClairModel.Model.FetchMisc
     dscan <prev> <kind> <text>       Digest parsed from prev (hex of the text), then Scan(nil | string | other);
                                      kind = n | s | o; answer: <err 0|1> <algo> <checksum> <String()> (hex)
     sniff <bytes>            zreader.detectCompression; answer: gzip | zstd | bzip2 | none | other
+    linit <digest> <uriempty> <mediatype> <payload> <tar>    Layer.Init called directly on a file holding payload
+                             (tar = tarfs.New's verdict on it); answer: err | t:<len>:<fnv> | d
     reset                    new arena; answer: ok
 -/
 namespace Driver.C09
@@ -268,6 +270,14 @@ def stepLine (s : DState) (l : String) : DState × String :=
       let (ss, o) := FetchSched.step (paramsOf s.hist s.tars) s.sched (.spawn tid p.req)
       ({ s with sched := ss, pending := [] }, renderSOut o)
     | _, _ => (s, "bad-op")
+  | ["linit", dig, ue, mt, payload, tar] =>
+    match bytesOf dig, bytesOf mt, bytesOf payload with
+    | some dig, some mt, some payload =>
+      let P : Params := { hash := fun _ _ => [], unz := fun _ _ _ => none, tarOK := fun _ => tar == "1", uriOK := fun _ => true }
+      match layerInit P dig (ue == "1") (strOf mt) payload with
+      | none => (s, "err")
+      | some v => (s, renderView v)
+    | _, _, _ => (s, "bad-op")
   | ["sniff", b] =>
     match bytesOf b with
     | some b => (s, kindName (detectCompression b))
